@@ -16,9 +16,6 @@
                  a rotation writes)
      next        object allocation: create_atom builds a NEW Atom object
                  (Atom.__init__ sets cell = None); ids >= next do not exist yet
-     stale       ghost flag, set when get_positions_with_two_bonds /
-                 get_position_with_three_bonds leave a REGISTERED atom in
-                 another cell than the one it is listed in (finding C14-F6)
      qlog        ghost: the cell-list state at every get_near_cells call *)
 From Coq Require Import ZArith List Bool Arith.
 From PV Require Import Model.Cells.
@@ -32,7 +29,6 @@ Record ustate := mkU {
   present : nat -> bool;
   bonds : nat -> list nat;
   next : nat;
-  stale : bool;
   qlog : list qentry
 }.
 
@@ -45,15 +41,15 @@ Section Use.
 
   (* self.routines.cells.add_cell(a) *)
   Definition u_add (a : nat) (u : ustate) : ustate :=
-    mkU (add_cell size D (cs u) a) (present u) (bonds u) (next u) (stale u) (qlog u).
+    mkU (add_cell size D (cs u) a) (present u) (bonds u) (next u) (qlog u).
 
   (* self.routines.cells.remove_cell(a) *)
   Definition u_remove (a : nat) (u : ustate) : ustate :=
-    mkU (remove_cell (cs u) a) (present u) (bonds u) (next u) (stale u) (qlog u).
+    mkU (remove_cell (cs u) a) (present u) (bonds u) (next u) (qlog u).
 
   (* a.x = ..; a.y = ..; a.z = ..  (three attribute writes in a row) *)
   Definition u_write (a : nat) (p : pos) (u : ustate) : ustate :=
-    mkU (move (cs u) a p) (present u) (bonds u) (next u) (stale u) (qlog u).
+    mkU (move (cs u) a p) (present u) (bonds u) (next u) (qlog u).
 
   (* "if b not in a.bonds: a.bonds.append(b)" *)
   Definition link1 (a b : nat) (bd : nat -> list nat) : nat -> list nat :=
@@ -62,7 +58,7 @@ Section Use.
   (* both directions, only between atoms that exist (has_atom guards) *)
   Definition u_link (a b : nat) (u : ustate) : ustate :=
     if present u a && present u b
-    then mkU (cs u) (present u) (link1 b a (link1 a b (bonds u))) (next u) (stale u) (qlog u)
+    then mkU (cs u) (present u) (link1 b a (link1 a b (bonds u))) (next u) (qlog u)
     else u.
 
   (* residue.create_atom(name, p): a NEW Atom object h = next (cell None),
@@ -75,18 +71,18 @@ Section Use.
     let bd0 := upd Nat.eqb (bonds u) h [] in
     mkU (move (cs u) h p) (upd Nat.eqb (present u) h true)
         (fold_left (fun bd b => link1 b h (link1 h b bd)) bs' bd0)
-        (S h) (stale u) (qlog u).
+        (S h) (qlog u).
 
   (* residue.remove_atom(name): out of residue.atoms / residue.map, and out of
      the bond list of every atom it was bonded to.  The cell list is NOT told. *)
   Definition u_delete (h : nat) (u : ustate) : ustate :=
     mkU (cs u) (upd Nat.eqb (present u) h false)
         (fold_left (fun bd b => upd Nat.eqb bd b (remove_first h (bd b))) (bonds u h) (bonds u))
-        (next u) (stale u) (qlog u).
+        (next u) (qlog u).
 
   (* cells.get_near_cells(a) *)
   Definition u_query (a : nat) (u : ustate) : ustate :=
-    mkU (cs u) (present u) (bonds u) (next u) (stale u) (mkQ a (cs u) (present u) :: qlog u).
+    mkU (cs u) (present u) (bonds u) (next u) (mkQ a (cs u) (present u) :: qlog u).
 
   (* Residue.rotate_tetrahedral(atom1 = pivot, atom2 = atom, angle): every atom
      bonded to atom2 except atom1 is written; f = the new coordinates *)
@@ -122,7 +118,7 @@ Section Use.
      Python; no code path re-inserts a removed Atom object, the model drops them. *)
   Definition assign_cells (atoms : list nat) (u : ustate) : ustate :=
     for_each atoms u_add
-      (mkU (mk (fun _ => []) (fun _ => None) (posn (cs u))) (present u) (bonds u) (next u) false []).
+      (mkU (mk (fun _ => []) (fun _ => None) (posn (cs u))) (present u) (bonds u) (next u) []).
 
   (* ---- debump.Debump.set_dihedral_angle ---------------------------------- *)
   (* for name in moveablenames: atom = get_atom(name); remove_cell; write; add_cell *)
@@ -137,20 +133,17 @@ Section Use.
 
   (* ---- hydrogens/optimize.py --------------------------------------------- *)
 
-  (* get_positions_with_two_bonds(atom) / get_position_with_three_bonds(atom):
-     three rotations by 120 degrees about bonds[0]-atom of everything else
-     bonded to atom.  The rotated atoms ARE registered (an existing H or LP);
-     the third rotation brings them back only up to rounding, and the cell
-     list is never told.  stale records whether one of them ended in another
-     cell than the one it is listed in. *)
+  (* get_positions_with_two_bonds(atom) / get_position_with_three_bonds(atom)
+     (as repaired by e1a3cf3, finding C14-F6): the coordinates of everything
+     bonded to atom except bonds[0] are saved, those atoms are rotated twice by
+     120 degrees about bonds[0]-atom (they ARE registered: an existing H or LP;
+     the cell list is not told), and the saved coordinates are written back.
+     No cell operation and no query happens in between. *)
   Definition rot3 (atom : nat) (g : nat -> nat -> pos) (u : ustate) : ustate :=
     let pivot := hd 0%nat (bonds u atom) in
     let ms := moved u pivot atom in
-    let u' := for_i 3 (fun i => u_rotate pivot atom (g i)) u in
-    let bad := existsb (fun m => match cell_of (cs u) m with
-                                 | Some k => negb (key_eqb k (key_of size D (posn (cs u') m)))
-                                 | None => false end) ms in
-    mkU (cs u') (present u') (bonds u') (next u') (stale u' || bad) (qlog u').
+    let u' := for_i 2 (fun i => u_rotate pivot atom (g i)) u in
+    for_each ms (fun m => u_write m (posn (cs u) m)) u'.
 
   Definition get_positions_with_two_bonds := rot3.
   Definition get_position_with_three_bonds := rot3.
@@ -484,8 +477,8 @@ Definition modelled_sites : list (string * string) :=
   ("hydrogens.HydrogenRoutines.initialize_full_optimization", "newcells setcells assign");
   ("hydrogens.HydrogenRoutines.initialize_wat_optimization", "newcells setcells assign");
   ("hydrogens.HydrogenRoutines.optimize_hydrogens", "for{for{qry(atom)}} for{if{call:finalize}} for{for{if{call:try_donor} if{call:try_acceptor}} for{if{call:try_both} if{call:try_both}} for{if{call:try_both} if{call:try_both}} for{call:complete}}");
-  ("hydrogens.optimize.Optimize.get_position_with_three_bonds", "rot(pivot,atom) rot(pivot,atom) rot(pivot,atom) ret");
-  ("hydrogens.optimize.Optimize.get_positions_with_two_bonds", "rot(fixed,atom) rot(fixed,atom) rot(fixed,atom) ret");
+  ("hydrogens.optimize.Optimize.get_position_with_three_bonds", "rot(pivot,atom) rot(pivot,atom) for{W(moved)} ret");
+  ("hydrogens.optimize.Optimize.get_positions_with_two_bonds", "rot(fixed,atom) rot(fixed,atom) for{W(moved)} ret");
   ("hydrogens.optimize.Optimize.make_atom_with_no_bonds", "new(addname) add(newatom)");
   ("hydrogens.optimize.Optimize.make_atom_with_one_bond_h", "new(addname)");
   ("hydrogens.optimize.Optimize.make_atom_with_one_bond_lp", "new(addname)");
